@@ -1,6 +1,7 @@
 """C07 — every join carries a gap and retained neighbours keep their input gap."""
 import remap_lib as R
 
+EXTRA_ANCHORS = ['assembly/scripts/pretext_to_asm.py']      # files outside the property's anchors whose change escalates the quick budget (T3)
 LEVEL = "proof"
 RULE = ('all C01 streams for the all-inputs clauses (gapless adjacency only if adjacent in input; no terminal gaps) + PretextView-model scripts incl. unpainted scaffolds with trailing contigs inside the final partial texel, absent scaffolds, cut contigs, for the gap-identity clause. Non-trivial = distinct (kind, #pieces, cuts, breaks, joins, #assemblies | error).')
 TRUSTED = ['correspondence harness props/C07.py + remap_lib.py: real BuildAssembly pipeline vs Lean `remap` on the projection `proj_rows`', 'modelled not verified: Python dict/set/sort semantics as in Model/Py.lean; object identity by object ids; PretextView edit-script model (spec side)']
